@@ -46,6 +46,9 @@ Proofs/CoreBound.vos Proofs/CoreBound.vok Proofs/CoreBound.required_vos: Proofs/
 Proofs/CoreCons.vo Proofs/CoreCons.glob Proofs/CoreCons.v.beautified Proofs/CoreCons.required_vo: Proofs/CoreCons.v Lib/NumOps.vo Gen/GenProto.vo Model/Core.vo Spec/ProtoSpec.vo
 Proofs/CoreCons.vio: Proofs/CoreCons.v Lib/NumOps.vio Gen/GenProto.vio Model/Core.vio Spec/ProtoSpec.vio
 Proofs/CoreCons.vos Proofs/CoreCons.vok Proofs/CoreCons.required_vos: Proofs/CoreCons.v Lib/NumOps.vos Gen/GenProto.vos Model/Core.vos Spec/ProtoSpec.vos
+Proofs/CoreInit.vo Proofs/CoreInit.glob Proofs/CoreInit.v.beautified Proofs/CoreInit.required_vo: Proofs/CoreInit.v Lib/NumOps.vo Gen/GenProto.vo Model/Core.vo Spec/ProtoSpec.vo Proofs/CoreLemmas.vo Proofs/CoreCons.vo Proofs/CoreOrder.vo Proofs/CoreLife.vo
+Proofs/CoreInit.vio: Proofs/CoreInit.v Lib/NumOps.vio Gen/GenProto.vio Model/Core.vio Spec/ProtoSpec.vio Proofs/CoreLemmas.vio Proofs/CoreCons.vio Proofs/CoreOrder.vio Proofs/CoreLife.vio
+Proofs/CoreInit.vos Proofs/CoreInit.vok Proofs/CoreInit.required_vos: Proofs/CoreInit.v Lib/NumOps.vos Gen/GenProto.vos Model/Core.vos Spec/ProtoSpec.vos Proofs/CoreLemmas.vos Proofs/CoreCons.vos Proofs/CoreOrder.vos Proofs/CoreLife.vos
 Proofs/CoreLemmas.vo Proofs/CoreLemmas.glob Proofs/CoreLemmas.v.beautified Proofs/CoreLemmas.required_vo: Proofs/CoreLemmas.v Lib/NumOps.vo Gen/GenProto.vo Model/Core.vo Spec/ProtoSpec.vo
 Proofs/CoreLemmas.vio: Proofs/CoreLemmas.v Lib/NumOps.vio Gen/GenProto.vio Model/Core.vio Spec/ProtoSpec.vio
 Proofs/CoreLemmas.vos Proofs/CoreLemmas.vok Proofs/CoreLemmas.required_vos: Proofs/CoreLemmas.v Lib/NumOps.vos Gen/GenProto.vos Model/Core.vos Spec/ProtoSpec.vos
